@@ -25,6 +25,8 @@ import (
 
 	"github.com/awslabs/ar-go-tools/internal/analysisutil"
 	"github.com/awslabs/ar-go-tools/internal/formatutil"
+	"golang.org/x/tools/go/callgraph"
+	"golang.org/x/tools/go/callgraph/cha"
 	"golang.org/x/tools/go/ssa"
 	"golang.org/x/tools/go/ssa/ssautil"
 )
@@ -45,8 +47,24 @@ func addGoFunction(f *ssa.Function, pos token.Pos, goFunctions map[*ssa.Function
 }
 
 // finds the functions that are the argument of "go ..."
-func findGoFunctions(allFunctions map[*ssa.Function]bool) map[*ssa.Function][]token.Pos {
+func findGoFunctions(program *ssa.Program, allFunctions map[*ssa.Function]bool) map[*ssa.Function][]token.Pos {
 	result := make(map[*ssa.Function][]token.Pos)
+
+	// The class hierarchy call graph is only needed for go statements whose callee is not known statically
+	// (interface methods and function values); it is built on first use.
+	var cg *callgraph.Graph
+	addDynamicCallees := func(caller *ssa.Function, site *ssa.Go) {
+		if cg == nil {
+			cg = cha.CallGraph(program)
+		}
+		if node := cg.Nodes[caller]; node != nil {
+			for _, edge := range node.Out {
+				if edge.Site == site && edge.Callee != nil && edge.Callee.Func != nil {
+					addGoFunction(edge.Callee.Func, site.Pos(), result)
+				}
+			}
+		}
+	}
 
 	for f := range allFunctions {
 		for _, b := range f.Blocks {
@@ -55,6 +73,7 @@ func findGoFunctions(allFunctions map[*ssa.Function]bool) map[*ssa.Function][]to
 				case *ssa.Go:
 					// invoke?
 					if v.Call.IsInvoke() {
+						addDynamicCallees(f, v)
 					} else {
 						switch value := v.Call.Value.(type) {
 						case *ssa.Function:
@@ -65,6 +84,10 @@ func findGoFunctions(allFunctions map[*ssa.Function]bool) map[*ssa.Function][]to
 							case *ssa.Function:
 								addGoFunction(fn, v.Pos(), result)
 							}
+
+						default:
+							// a function value (variable, field, parameter, result of a call, ...)
+							addDynamicCallees(f, v)
 						}
 					}
 				}
@@ -240,7 +263,7 @@ func MayPanicAnalyzer(program *ssa.Program, exclude []string, jsonFlag bool) {
 	allFunctions := ssautil.AllFunctions(program)
 
 	// find all functions that are the argument of "go ..."
-	goFunctions := findGoFunctions(allFunctions)
+	goFunctions := findGoFunctions(program, allFunctions)
 
 	// we filter out the ones we consider "out of scope"
 	for f := range goFunctions {
